@@ -55,7 +55,7 @@ PROPS = {
         "coq": "Properties/C01.v",
         "coq_extra": ["Properties/C16e.v"],
         "pinchecks": ["PinChecks/PcBody_enf.v", "PinChecks/PcLiterals.v", "PinChecks/PcBody_fmacros.v", "PinChecks/PcEffector.v", "PinChecks/PcEffectorGen.v",
-                      "PinChecks/PcBody_fconvert.v", "PinChecks/PcBody_util.v"],
+                      "PinChecks/PcBody_fconvert.v", "PinChecks/PcBody_util.v", "PinChecks/PcStrFnGen.v"],
         "gen": "c01",
         "level_text": "Coq theorem c01_enforce_is_perm: for EVERY model store, matcher AST, function table, request (any arity/types), "
                       "effect rule and flag the enforcement loop of the model equals the PERM reference (per-rule outcomes in stored order, "
@@ -100,7 +100,7 @@ ENGINE_NOTE = ("trusted: Coq kernel, extraction, harness; modelled not verified:
 PROPS.update({
     "C06": {
         "coq": "Properties/C06.v",
-        "pinchecks": ["PinChecks/PcBody_enf.v", "PinChecks/PcBody_fmap.v", "PinChecks/PcLiterals.v", "PinChecks/PcEffector.v", "PinChecks/PcEffectorGen.v", "PinChecks/PcBody_fconvert.v",
+        "pinchecks": ["PinChecks/PcBody_enf.v", "PinChecks/PcBody_fmap.v", "PinChecks/PcStrFnGen.v", "PinChecks/PcLiterals.v", "PinChecks/PcEffector.v", "PinChecks/PcEffectorGen.v", "PinChecks/PcBody_fconvert.v",
                       "PinChecks/PcBody_fmacros.v", "PinChecks/PcRoleGraph.v"],
         "gen": "c06",
         "partial": "never-hang / never-panic of the regex crate and of rhai is NOT a theorem: it is watchdog + catch_unwind evidence from the differential run; "
@@ -117,7 +117,7 @@ PROPS.update({
     },
     "C15": {
         "coq": "Properties/C15.v",
-        "pinchecks": ["PinChecks/PcBody_fmap.v", "PinChecks/PcLiterals.v"],
+        "pinchecks": ["PinChecks/PcBody_fmap.v", "PinChecks/PcStrFnGen.v", "PinChecks/PcLiterals.v"],
         "gen": "c15",
         "level_text": "Coq theorems: c15_key_match / c15_key_get* characterise keyMatch/keyGet for ALL byte strings; for every pattern of the documented grammar "
                       "(unbounded length) and EVERY key, the text-rewriting pipeline of keyMatch2/3/4/5, keyGet2/3 reads back as the compiled atom list "
@@ -328,7 +328,7 @@ PROPS.update({
     "C16": {
         "coq": "Properties/C16.v",
         "coq_extra": ["Properties/C16q.v", "Properties/C09text.v", "Properties/C16e.v"],
-        "pinchecks": ["PinChecks/PcBody_util.v", "PinChecks/PcBody_model.v", "PinChecks/PcBody_adapters.v", "PinChecks/PcLiterals.v"],
+        "pinchecks": ["PinChecks/PcBody_util.v", "PinChecks/PcStrFnGen.v", "PinChecks/PcBody_model.v", "PinChecks/PcBody_adapters.v", "PinChecks/PcLiterals.v"],
         "gen": "c16",
         "level_text": "Coq theorems at BYTE level over Model/Csv.v and Model/Ini.v (validated against the real functions through the cfg(casbin_verif) hooks): "
                       "c16_parse_render_row (every csv-safe row under every spacing/quoting layout parses back, scanner fuel proved adequate), file level with "
